@@ -433,8 +433,8 @@ def member_table_fields(ix: Any, f: Any) -> set[str]:
     return out
 
 
-_STR_METHOD_OF_FILTER = {"upper": "upper", "lower": "lower", "capitalize": "capitalize", "title": "title", "trim": "strip"}
-_UNCHANGED_BY_FILTER = {"string", "safe"}  # filters of jinja2 that hand a string on as it is
+_STR_METHOD_OF_FILTER = {"upper": "upper", "lower": "lower", "capitalize": "capitalize", "title": "title"}
+_UNCHANGED_BY_FILTER = {"string", "safe", "trim"}  # filters of jinja2 that hand an identifier (no white space in it) on as it is
 
 
 class KeywordSafety:
@@ -481,7 +481,8 @@ class KeywordSafety:
             how = "keeps"
         else:
             kws = spellable_keywords(out)
-            how = "never" if not kws else f"it can yield {', '.join(repr(k) for k in kws[:4])}{' ...' if len(kws) > 4 else ''} from a name that is no keyword"
+            how = "never" if not kws else (f"its result is not shown to differ from {', '.join(repr(k) for k in kws[:4])}{' ...' if len(kws) > 4 else ''} "
+                                                "when it is given a name that is no keyword")
         self._filter[name] = how
         return how
 
